@@ -178,9 +178,27 @@ class Ctx:
                 # failure in a dependency (Model / Gen / Lemmas): all modules are unproved
                 bad_mods = set(modules)
             for m in modules:
+                rel = m.replace(".", "/") + ".lean"
+                src_lines = (LEAN / rel).read_text().splitlines()
+                # theorem spans by line number
+                starts = [(i + 1, mm.group(1)) for i, l in enumerate(src_lines)
+                          if (mm := re.match(r"theorem\s+([^\s:({\[]+)", l))]
+                errs = [int(x) for x in re.findall(re.escape(rel) + r":(\d+):\d+: error", log)]
+                hit = set()
+                for e in errs:
+                    cands = [n for (ln, n) in starts if ln <= e]
+                    if cands:
+                        hit.add(cands[-1])
+                ns = re.findall(r"^namespace\s+(\S+)", "\n".join(src_lines), re.M)
+                prefix = (ns[0] + ".") if ns else ""
                 for t in thms_by_mod[m]:
-                    if m in bad_mods:
+                    short = t[len(prefix):] if t.startswith(prefix) else t
+                    if m in bad_mods and (short in hit or not hit):
                         self.obligation(t, False, "lake build failed: " + "\n".join(failed_lines[:6]))
+                    elif m in bad_mods:
+                        # the module did not compile, so this theorem could not be audited in this run,
+                        # but its own proof raised no error
+                        self.obligation(t, False, "not audited: another theorem of the module failed to build")
                     else:
                         self.obligation(t, True)
             self.notes.append("lake build failed:\n" + log[-3000:])
@@ -374,12 +392,28 @@ def run_check(prop: str, tier: str, seed: int) -> int:
             ctx.prove(mod.MODULES)
         # 3: correspondence
         if hasattr(mod, "correspond"):
-            mod.correspond(ctx)
+            try:
+                mod.correspond(ctx)
+            except (InfraError, Timeout):
+                raise
+            except Exception as exc:
+                # the implementation behaved in a way the harness does not expect (on the unchanged tree this
+                # never happens): the correspondence no longer checks
+                ctx.mismatches.append({"stream": "harness-exception:correspond", "request": "-",
+                                       "impl": "".join(traceback.format_exception_only(type(exc), exc)).strip(),
+                                       "model": traceback.format_exc()[-1500:]})
         broken = [o for o in ctx.obligations if not o["ok"]]
         ctx.escalated = bool(broken or ctx.mismatches)
         # 4: direct search on the real code (bigger budget when something broke)
         if hasattr(mod, "search"):
-            mod.search(ctx)
+            try:
+                mod.search(ctx)
+            except (InfraError, Timeout):
+                raise
+            except Exception as exc:
+                ctx.mismatches.append({"stream": "harness-exception:search", "request": "-",
+                                       "impl": "".join(traceback.format_exception_only(type(exc), exc)).strip(),
+                                       "model": traceback.format_exc()[-1500:]})
     except Timeout:
         print(f"TIMEOUT property={prop} after {limit}s", flush=True)
         return 2
@@ -423,6 +457,7 @@ def run_check(prop: str, tier: str, seed: int) -> int:
     for l in lines:
         print(l, flush=True)
     if broken:
+        broken = sorted(broken, key=lambda o: o["detail"].startswith("not audited"))
         for o in broken[:10]:
             print(f"  broken obligation: {o['name']}: {o['detail'][:300]}", flush=True)
     for m in ctx.mismatches[:5]:
@@ -478,6 +513,13 @@ def main(argv=None):
     if not str(Path(iodata.__file__).resolve()).startswith(str(REPO.resolve())):
         print(f"INFRA-ERROR iodata imported from {iodata.__file__}, expected under {REPO}")
         sys.exit(2)
-    if a.replay:
-        sys.exit(run_replay(a.prop.upper(), a.replay))
-    sys.exit(run_check(a.prop.upper(), a.tier, seed))
+    try:
+        if a.replay:
+            rc = run_replay(a.prop.upper(), a.replay)
+        else:
+            rc = run_check(a.prop.upper(), a.tier, seed)
+    except Exception:  # a crash of the machinery itself is never a violation
+        traceback.print_exc()
+        print(f"INFRA-ERROR property={a.prop.upper()}: unexpected exception in the check machinery", flush=True)
+        rc = 2
+    sys.exit(rc)
